@@ -179,7 +179,9 @@ echs_instant_diff(echs_instant_t end, echs_instant_t beg)
 	intra_df *= SECS_PER_MIN;
 	intra_df += end.S - beg.S;
 	intra_df *= MSECS_PER_SEC;
-	intra_df += end.ms - beg.ms;
+	/* an instant that is good to the second is its .000 */
+	intra_df += (echs_instant_all_sec_p(end) ? 0 : (int)end.ms) -
+		(echs_instant_all_sec_p(beg) ? 0 : (int)beg.ms);
 
 	if (intra_df < 0) {
 		intra_df += MSECS_PER_DAY;
